@@ -13,9 +13,13 @@ Definition reforming_spec (r : Z) : Result Calendar ReformingError :=
 Lemma for_dates_ok py pm qy qm : in_i32 (py + 1) -> 1 <= pm <= 12 -> 1 <= qm <= 12 ->
   inner_GapKind_for_dates py (month_of_Z pm) qy (month_of_Z qm) = Ret (gap_kind py pm qy qm).
 Proof.
-  intros H PM QM. unfold inner_GapKind_for_dates, gap_kind. rewrite Month_eq_ok. rewrite !Month_discr_of_Z by assumption.
-  destruct (py =? qy); cbn [bind]; [destruct (pm =? qm); reflexivity|].
-  rewrite i32_add_ok by exact H. cbn [bind]. destruct (py + 1 =? qy); reflexivity.
+  intros H PM QM. unfold inner_GapKind_for_dates, gap_kind. autounfold with gen_new.
+  rewrite ?Month_eq_ok. rewrite ?Month_discr_of_Z by assumption.
+  destruct (Z.eqb_spec py qy) as [E|N]; destruct (Z.eqb_spec pm qm) as [E2|N2]; destruct (Z.eqb_spec (py + 1) qy) as [E3|N3];
+    try (exfalso; lia);
+    repeat first [ progress cbn [bind negb andb orb] | rewrite i32_add_ok by exact H | progress cmp_simpl
+                 | match goal with |- context[if ?c then _ else _] => destruct c eqn:? end ];
+    try reflexivity; exfalso; lia.
 Qed.
 
 (* fields of the two proleptic dates that reforming() looks at *)
